@@ -46,7 +46,7 @@ Lemma build_time_validate_is_default_validate :
   build_time_rec_agreesb Gen_Members.validate_default_recursive Gen_Members.validate_sites = true.
 Proof. vm_compute. reflexivity. Qed.
 
-(* the switch is a plain global: neuroml/build_time_validation.py is a docstring and `ENABLED = True`, the helpers of
+(* the switch is a plain global: neuroml/build_time_validation.py binds ENABLED once (`ENABLED = True`) and has nothing else that matters, the helpers of
    neuroml/__init__.py assign / return that attribute of the module bound by `from . import build_time_validation`, and the only
    other use in the package is the read in add()/component_factory - one cell, shared by every thread *)
 Lemma switch_is_plain_global :
